@@ -1,6 +1,8 @@
 package serialize
 
 import (
+	"fmt"
+
 	"github.com/kercylan98/vivid"
 	"github.com/kercylan98/vivid/internal/messages"
 )
@@ -17,6 +19,9 @@ func EncodeEnvelopWithRemoting(codec vivid.Codec, envelop vivid.Envelop) (data [
 	var writer = messages.NewWriterFromPool()
 	defer messages.ReleaseWriterToPool(writer)
 	if messageDesc.IsOutside() {
+		if codec == nil {
+			return nil, fmt.Errorf("cannot encode message %T: not a registered message and no codec configured", envelop.Message())
+		}
 		data, err = codec.Encode(envelop.Message())
 		if err != nil {
 			return nil, err
@@ -80,6 +85,10 @@ func DecodeEnvelopWithRemoting(codec vivid.Codec, data []byte) (
 		}
 	} else {
 		// 外部消息反序列化
+		if codec == nil {
+			err = fmt.Errorf("cannot decode message %q: not a registered message and no codec configured", messageName)
+			return
+		}
 		messageInstance, err = codec.Decode(messageData)
 		if err != nil {
 			return
